@@ -82,34 +82,36 @@ func (r *Runner) execEncPlan(op *OpSpec, st *Step) *Rec {
 				buf = a.buf()
 			}
 			n, err, pc, pt := callEnc(buf, arg)
-			r.stats.evals++
+			r.st(st).evals++
 			res.Evals++
 			ln := p.ln
 			if ln < 0 {
 				ln = 0
 			}
-			what := fmt.Sprintf("buffer %s (len %d cap %d, size %d, by-value=%v)", p.name, ln, p.capa, s, form == 1)
+			what := func() string {
+				return fmt.Sprintf("buffer %s (len %d cap %d, size %d, by-value=%v)", p.name, ln, p.capa, s, form == 1)
+			}
 			if pc != "" {
-				fail("encode-panic", what+": EncodeObject panicked: "+pt)
+				fail("encode-panic", what()+": EncodeObject panicked: "+pt)
 				continue
 			}
 			if ln >= s {
 				if err != nil {
-					fail("sufficient-buffer-error", what+": error "+err.Error())
+					fail("sufficient-buffer-error", what()+": error "+err.Error())
 				} else if n != s {
-					fail("size-mismatch", fmt.Sprintf("%s: EncodeObject wrote %d bytes, EncodedSize said %d", what, n, s))
+					fail("size-mismatch", fmt.Sprintf("%s: EncodeObject wrote %d bytes, EncodedSize said %d", what(), n, s))
 				} else if a != nil {
 					if cb, pn, ok := model.CanonBytes(a.buf()[:n]); !ok || pn != n {
-						fail("output-not-a-message", what+": the bytes written do not parse as one message of that length")
+						fail("output-not-a-message", what()+": the bytes written do not parse as one message of that length")
 					} else if d := model.Digest(cb); firstOut == "" {
 						firstOut = d
 					} else if d != firstOut {
-						fail("output-differs-between-calls", what+": encoding the same value again gave a different message")
+						fail("output-differs-between-calls", what()+": encoding the same value again gave a different message")
 					}
 				}
 			} else {
 				if err == nil {
-					fail("short-buffer-no-error", fmt.Sprintf("%s: returned n=%d and no error", what, n))
+					fail("short-buffer-no-error", fmt.Sprintf("%s: returned n=%d and no error", what(), n))
 				}
 			}
 			if a != nil {
@@ -118,12 +120,12 @@ func (r *Runner) execEncPlan(op *OpSpec, st *Step) *Rec {
 					keep = n
 				}
 				if msg := a.intact(keep); msg != "" {
-					fail("wrote-outside/"+where(msg), what+": "+msg)
+					fail("wrote-outside/"+where(msg), what()+": "+msg)
 				}
 			}
 		}
 	}
-	res.D = model.Digest([]byte(fmt.Sprintf("encplan s=%d out=%s", s, firstOut)))
+	res.D = model.Digest([]byte("encplan s=" + strconv.Itoa(s) + " out=" + firstOut))
 	return res
 }
 
@@ -144,7 +146,7 @@ func maxFootprint(c *model.Corpus, sd *model.StructDef) int {
 // c05check: (a) no panic, (b) success exactly when the validator says well-formed, with the same length,
 // (c) allocation in proportion to the input, (d) steps in proportion to the input.
 func (r *Runner) c05check(op *OpSpec, st *Step, sd *model.StructDef, m *message, in []byte, res *Rec, pc, pt string) {
-	r.stats.evals++
+	r.st(st).evals++
 	res.Evals++
 	shape := m.fault
 	if pc != "" {
@@ -156,7 +158,7 @@ func (r *Runner) c05check(op *OpSpec, st *Step, sd *model.StructDef, m *message,
 		return
 	}
 	verdict, vn := model.Validate(r.C, sd, in)
-	r.stats.verdicts[verdict.String()]++
+	r.st(st).verdicts[verdict.String()]++
 	switch verdict {
 	case model.Valid:
 		if res.Cls != "ok" {
@@ -169,9 +171,17 @@ func (r *Runner) c05check(op *OpSpec, st *Step, sd *model.StructDef, m *message,
 			r.violation("C05", "C05/accepted-malformed/"+shape, fmt.Sprintf("DecodeObject(%s) accepted a malformed message, n=%d of %d bytes (%s)", op.Type, res.N, len(in), m.desc), st)
 		}
 	}
-	bound := uint64(64<<10) + uint64(len(in))*uint64(maxFootprint(r.C, sd)+64)
+	// "memory out of proportion to the input": a generous linear bound (pooled scratch objects are a few KiB per
+	// nesting level); the cheap per-call metric is lumpy, so an excess is confirmed with exact accounting.
+	bound := uint64(1<<20) + uint64(len(in))*uint64(maxFootprint(r.C, sd)+8192+64)
 	if res.Alloc > bound {
-		r.violation("C05", "C05/allocation-blow-up/"+shape, fmt.Sprintf("DecodeObject(%s) allocated %d bytes for a %d-byte input (bound %d; %s)", op.Type, res.Alloc, len(in), bound, m.desc), st)
+		var m0, m1 runtime.MemStats
+		runtime.ReadMemStats(&m0)
+		callDec(in, reflect.New(corpus.Types[op.Type]).Interface())
+		runtime.ReadMemStats(&m1)
+		if exact := m1.TotalAlloc - m0.TotalAlloc; exact > bound {
+			r.violation("C05", "C05/allocation-blow-up/"+shape, fmt.Sprintf("DecodeObject(%s) allocated %d bytes for a %d-byte input (bound %d; %s)", op.Type, exact, len(in), bound, m.desc), st)
+		}
 	}
 	if sb := int64(4096 + 256*len(in)); res.Steps > sb {
 		r.violation("C05", "C05/step-blow-up/"+shape, fmt.Sprintf("DecodeObject(%s) took %d steps for a %d-byte input (bound %d; %s)", op.Type, res.Steps, len(in), sb, m.desc), st)
@@ -200,13 +210,11 @@ func (r *Runner) execDecEnum(op *OpSpec, st *Step) *Rec {
 		// too long to enumerate: seeded sample of positions
 		res.Tag = "decenum-sampled/" + sd.Shape()
 	}
-	if r.ginp == nil || r.ginp.usable < len(base)+8 {
-		r.ginp = newGuarded(len(base) + 4096)
-	}
+	g := r.guardedFor(st.Task, len(base)+8)
 	rng := model.NewRng(model.Mix(op.FSeed, 0xe))
 	run := func(b []byte, fault, desc string) {
 		m := &message{fault: fault, bytes: b, clean: base, desc: desc, changed: true}
-		in := r.ginp.place(b)
+		in := g.place(b)
 		one := r.decodeOnce(op, st, sd, m, in, reflect.New(rt))
 		res.Evals += one.Evals
 	}
@@ -215,7 +223,7 @@ func (r *Runner) execDecEnum(op *OpSpec, st *Step) *Rec {
 		if len(base) > 600 && rng.Intn(len(base)) > 600 {
 			continue
 		}
-		run(base[:k], "prefix", fmt.Sprintf("prefix %d of %d", k, len(base)))
+		run(base[:k], "prefix", "prefix "+strconv.Itoa(k)+" of "+strconv.Itoa(len(base)))
 	}
 	mut := make([]byte, len(base))
 	for k := 0; k < len(base); k++ {
@@ -229,7 +237,7 @@ func (r *Runner) execDecEnum(op *OpSpec, st *Step) *Rec {
 			}
 			copy(mut, base)
 			mut[k] = v
-			run(mut, "byte", fmt.Sprintf("byte %d of %d: %#x -> %#x", k, len(base), o, v))
+			run(mut, "byte", "byte "+strconv.Itoa(k)+" of "+strconv.Itoa(len(base))+": "+strconv.Itoa(int(o))+" -> "+strconv.Itoa(int(v)))
 		}
 	}
 	res.D = "decenum"
@@ -258,7 +266,7 @@ type c06state struct {
 }
 
 func (r *Runner) c06after(op *OpSpec, st *Step, sd *model.StructDef, m *message, in []byte, dst reflect.Value, res *Rec) {
-	r.stats.evals++
+	r.st(st).evals++
 	s := r.c06
 	if len(in) > 0 {
 		s.inputs = append(s.inputs, [2]uintptr{ptrOf(in), uintptr(len(in))})
@@ -267,7 +275,7 @@ func (r *Runner) c06after(op *OpSpec, st *Step, sd *model.StructDef, m *message,
 		return
 	}
 	s.decoded++
-	o := &liveObj{id: s.next, typ: op.Type, obj: dst, input: in, desc: fmt.Sprintf("#%d %s decoded at slot %d from %d bytes", s.next, op.Type, st.Slot, len(in))}
+	o := &liveObj{id: s.next, typ: op.Type, obj: dst, input: in, desc: "#" + strconv.Itoa(s.next) + " " + op.Type + " decoded at slot " + strconv.Itoa(st.Slot) + " from " + strconv.Itoa(len(in)) + " bytes"}
 	s.next++
 	o.snap = model.Digest(model.CanonValue(dst.Elem()))
 	model.Extents(r.C, sd, m.w, dst.Elem(), op.Type, &o.extents)
@@ -280,8 +288,8 @@ func (r *Runner) c06after(op *OpSpec, st *Step, sd *model.StructDef, m *message,
 	if len(s.live) > 64 {
 		s.live = s.live[1:]
 	}
-	if len(s.live) > r.stats.maxLive {
-		r.stats.maxLive = len(s.live)
+	if len(s.live) > r.st(st).maxLive {
+		r.st(st).maxLive = len(s.live)
 	}
 	// alignment is a property of the fresh object alone
 	for _, e := range o.extents {
@@ -298,7 +306,7 @@ func (r *Runner) c06sweep(st *Step, after string) {
 		return
 	}
 	s := r.c06
-	r.stats.sweeps++
+	r.st(st).sweeps++
 	type ext struct {
 		model.Extent
 		o *liveObj
@@ -317,7 +325,7 @@ func (r *Runner) c06sweep(st *Step, after string) {
 			}
 		}
 	}
-	r.stats.checkedExtents += len(all)
+	r.st(st).checkedExtents += len(all)
 	sort.Slice(all, func(i, j int) bool { return all[i].Addr < all[j].Addr })
 	for i := 1; i < len(all); i++ {
 		p, q := all[i-1], all[i]
@@ -367,13 +375,13 @@ func (r *Runner) c06drop(st *Step) {
 // ================================================================ C09
 
 func (r *Runner) c09decCheck(op *OpSpec, st *Step, sd *model.StructDef, m *message, err error, res *Rec) {
-	r.stats.evals++
+	r.st(st).evals++
 	res.Evals++
 	isReq, text := false, ""
 	if err != nil {
 		isReq, text = isRequiredErr(err)
 	}
-	res.Tag = fmt.Sprintf("dec/omit=%d/%s", len(m.missing), sd.Shape())
+	res.Tag = "dec/omit=" + strconv.Itoa(len(m.missing)) + "/" + sd.Shape()
 	if len(m.missing) > 0 {
 		if res.Cls == "ok" {
 			r.violation("C09", "C09/missing-required-accepted", fmt.Sprintf("DecodeObject(%s) accepted a message lacking required %v: %s", op.Type, m.missing, m.w.String()), st)
@@ -407,7 +415,7 @@ func (r *Runner) c09encCheck(op *OpSpec, st *Step, v *value, out []byte, res *Re
 	if r.Spec.Prof != "C09" || out == nil || v.sd.Rejected() {
 		return
 	}
-	r.stats.evals++
+	r.st(st).evals++
 	res.Evals++
 	res.Tag = "enc/" + op.Arg + "/" + v.sd.Shape()
 	ow, _, err := model.Parse(out, model.WStruct, 4096)
@@ -540,7 +548,7 @@ func (r *Runner) checkArgUnchanged(op *OpSpec, st *Step, v *value, before, fn st
 	if r.Spec.Prof != "C16" {
 		return
 	}
-	r.stats.evals++
+	r.st(st).evals++
 	if after := model.Digest(model.CanonValue(v.ptr.Elem())); after != before {
 		form := "pointer"
 		if op.ByValue {
@@ -555,7 +563,7 @@ func (r *Runner) c16repeat(op *OpSpec, st *Step, v *value, arg interface{}, cano
 	if r.Spec.Prof != "C16" || canon == "" {
 		return
 	}
-	r.stats.evals++
+	r.st(st).evals++
 	res.Evals++
 	a := newArena(res.N+8, res.N+8)
 	n, err, pc, _ := callEnc(a.buf(), arg)
